@@ -252,7 +252,8 @@ def observe(case):
                          now=md['now'], is_probe=md['is_probe'])
         msgs.append(m)
     qh = QueryHandler(zc)
-    qa = qh.async_response(msgs, case['ucast_source'])
+    # (the listener hands a query to the handler only while the registry says it has entries: AsyncListener._process_datagram_at_time)
+    qa = qh.async_response(msgs, case['ucast_source']) if zc.registry.has_entries else None
     types = vset(zc.registry.async_get_types())
     if qa is None:
         return [log, types, None], None
